@@ -179,8 +179,27 @@ def mentions(cond):
     return out
 
 
-def guard_survives(facts, body, cfg, d, cond, bb):
-    """no writer of a field that `cond` mentions lies on a path from the guard's target block d to the use block bb"""
+def _reaches_avoiding_edge(cfg, a, b, edge):
+    """a ->+ b on a path that does not take the edge `edge`"""
+    seen = set()
+    st = [a]
+    while st:
+        x = st.pop()
+        for y in cfg.succ[x]:
+            if (x, y) == edge:
+                continue
+            if y == b:
+                return True
+            if y not in seen:
+                seen.add(y)
+                st.append(y)
+    return False
+
+
+def guard_survives(facts, body, cfg, d, cond, bb, s=None):
+    """no writer of a field that `cond` mentions lies on a path from the guard's target block d to the use block bb.  A writer whose
+    every way on to bb takes the guard edge s -> d again (the check at the top of a loop body, the write at its bottom) does not count:
+    the condition is re-established after it."""
     ms = mentions(cond)
     if not ms:
         return True
@@ -188,6 +207,8 @@ def guard_survives(facts, body, cfg, d, cond, bb):
         if w == bb:
             continue
         if not ((w == d or cfg.reaches(d, w)) and cfg.reaches(w, bb)):
+            continue
+        if s is not None and not _reaches_avoiding_edge(cfg, w, bb, (s, d)):
             continue
         for (root, f) in ms:
             if (root, f) in ws or (root, "*") in ws:
